@@ -18,7 +18,7 @@ for name, m in rows:
     det = [k for k, v in sorted(res.items()) if v.get('rc') == 1] + ['%s (after strengthening)' % k for k, v in sorted(extra.items()) if v.get('rc') == 1 and res.get(k, {}).get('rc') != 1]
     mis = [k for k, v in sorted(res.items()) if v.get('rc') == 0 and extra.get(k, {}).get('rc') != 1]
     keys = []
-    for k, v in sorted(list(res.items()) + list(extra.items())):
+    for k, v in sorted(list(res.items()) + list(extra.items()), key=lambda kv: kv[0]):
         keys += v.get('keys', [])[:2]
     what = m.get('title') or m.get('description') or ''
     out.append('| %s | %s | %s | %s | %s | %s |' % (name, m.get('breaks_property') or ','.join(m.get('properties', [])), what.replace('|', '/')[:160], ', '.join(det) or '-', ', '.join(mis) or '-', '; '.join(dict.fromkeys(keys))[:200].replace('|', '/')))
